@@ -1,10 +1,12 @@
 (** Hand-written step machine for queue/mutexLinkedQueue.go.
 
     Lock / RLock / Unlock / RUnlock are the logged (sync) accesses; the
-    container/list operation between them is a plain access ([m_silent]) and
-    is its own model step, so that the theorems quantify over interleavings
-    in which other goroutines run between the lock operation and the list
-    access (mutual exclusion is what the proofs then need).  sync.RWMutex is
+    container/list accesses between them are plain accesses ([m_silent]):
+    a reader performs one read step, a writer a read step followed by a
+    separate write step (a non-atomic read-modify-write of the list), so the
+    theorems quantify over interleavings in which other goroutines run
+    between the lock operation, the read and the write - mutual exclusion of
+    writers is what the proofs need.  sync.RWMutex is
     modelled as {writer flag, reader count}; Lock waits for both to be clear,
     RLock for the writer flag (Go's writer preference only removes
     behaviours).  Size is int32(l.Len()): modelled without the wrap beyond
@@ -19,7 +21,8 @@ Record mshared := MS { ms_lock : rw; ms_items : list nat }.
 Inductive mpc :=
 | MInv (o : qop)
 | MLock (o : qop)        (* acquire (write lock for Offer/Poll, read lock otherwise) *)
-| MBody (o : qop)        (* the plain list access inside the critical section *)
+| MRead (o : qop)                     (* plain read of the list inside the critical section *)
+| MWrite (o : qop) (snap : list nat)  (* writers: plain write computed from what was read *)
 | MUnlock (w : bool) (r : qret).
 
 Definition is_writer_op (o : qop) : bool :=
@@ -40,21 +43,26 @@ Definition mstep (l : mpc) (s : mshared) : mout :=
   | MLock o =>
       if is_writer_op o then
         if rw_writer lk || negb (Nat.eqb (rw_readers lk) 0) then Blocked
-        else Next (MBody o) (MS (RW true 0) (ms_items s))
+        else Next (MRead o) (MS (RW true 0) (ms_items s))
       else
         if rw_writer lk then Blocked
-        else Next (MBody o) (MS (RW false (S (rw_readers lk))) (ms_items s))
-  | MBody o =>
+        else Next (MRead o) (MS (RW false (S (rw_readers lk))) (ms_items s))
+  | MRead o =>
       match o with
-      | Offer v => Next (MUnlock true RUnit) (MS lk (ms_items s ++ [v]))
-      | Poll =>
-          match ms_items s with
-          | [] => Next (MUnlock true (RVal 0)) s
-          | x :: r => Next (MUnlock true (RVal x)) (MS lk r)
-          end
+      | Offer _ | Poll => Next (MWrite o (ms_items s)) s
       | Peek => Next (MUnlock false (RVal (hd 0 (ms_items s)))) s
       | Size => Next (MUnlock false (RSize (N.of_nat (length (ms_items s))))) s
       | IsEmpty => Next (MUnlock false (RBool (Nat.eqb (length (ms_items s)) 0))) s
+      | _ => Fault
+      end
+  | MWrite o snap =>
+      match o with
+      | Offer v => Next (MUnlock true RUnit) (MS lk (snap ++ [v]))
+      | Poll =>
+          match snap with
+          | [] => Next (MUnlock true (RVal 0)) (MS lk [])
+          | x :: r => Next (MUnlock true (RVal x)) (MS lk r)
+          end
       | _ => Fault
       end
   | MUnlock w r =>
@@ -62,7 +70,7 @@ Definition mstep (l : mpc) (s : mshared) : mout :=
       else Done r tt (MS (RW (rw_writer lk) (pred (rw_readers lk))) (ms_items s))
   end.
 
-Definition msilent (l : mpc) : bool := match l with MBody _ => true | _ => false end.
+Definition msilent (l : mpc) : bool := match l with MRead _ | MWrite _ _ => true | _ => false end.
 
 Definition mutexq : machine mshared unit mpc qop qret :=
   Machine (fun _ o => MInv o) mstep msilent.
